@@ -10,6 +10,7 @@ import (
 	"verifharness/bn"
 	"verifharness/reflex"
 	"verifharness/refparse"
+	"verifharness/run"
 )
 
 // C01 — accepted programs get the tree the documented grammar prescribes.
@@ -297,7 +298,7 @@ func (c *Ctx) c01Tokens(s *Sub, sub string, toks []bn.Tok, rp *refparse.Result) 
 func TestC01(t *testing.T) {
 	Main(t, "C01", func(c *Ctx) {
 		c.OnReplay("tree", func(s *Sub, rp *Replay) { c.c01Text(s, "replay", rp.Source, false) })
-		c.OnReplay("parens", func(s *Sub, rp *Replay) { c.c01Parens(s, rp.Source, rp.Extra["full"]) })
+		c.OnReplay("parens", func(s *Sub, rp *Replay) { c.c01Parens(s, rp.Source, rp.Extra["full"], rp.Stdin) })
 		c.ReplayTier()
 
 		c.Sub("enum-operator-adjacency", func(s *Sub) {
@@ -359,6 +360,28 @@ func TestC01(t *testing.T) {
 		if c.Thorough {
 			m = 12000
 		}
+		examples := shippedExamples()
+		c.Rapid("parens-on-programs", m, func(rt *rapid.T, s *Sub) {
+			// every operand, argument, condition, element and initialiser of a whole program wrapped in parentheses
+			seed := drawSeed(rt, examples)
+			ref := reflex.Lex([]rune(seed.Src))
+			rp := refparse.Parse(ref.Toks)
+			if len(ref.Diags) > 0 || !rp.OK || rp.OODTrailingComma {
+				return
+			}
+			min := bn.ProgramText(rp.Prog, bn.Minimal)
+			full := bn.ProgramText(rp.Prog, bn.Full)
+			a := c.W().Run(run.Req{Src: min, Stdin: seed.Stdin, Budget: 400000})
+			if a.Class() == run.Budget || a.Class() == run.Hung || a.Class() == run.Abnormal {
+				return
+			}
+			b := c.W().Run(run.Req{Src: full, Stdin: seed.Stdin, Budget: 1200000})
+			c.Ev.Case("parens-on-programs", full, true, "parens-seed-"+seed.Kind)
+			if a.Class() != b.Class() || a.Out != b.Out || firstDiagNoLine(a.Err) != firstDiagNoLine(b.Err) {
+				s.Violation(Replay{Check: "parens", Sig: "parens-change-program-output", Source: min, Stdin: seed.Stdin, Extra: map[string]string{"full": full},
+					Note: "wrapping every operand of a program in parentheses changed what it prints", Expected: a.Describe(), Observed: full + "\n" + b.Describe()})
+			}
+		})
 		c.Rapid("rand-parens-behaviour", m, func(rt *rapid.T, s *Sub) {
 			e := genArith(rt, rapid.IntRange(1, 5).Draw(rt, "depth"))
 			prog := []bn.Stmt{&bn.Print{E: e}}
@@ -388,9 +411,13 @@ func genArith(rt *rapid.T, depth int) bn.Expr {
 }
 
 // c01Parens: a program and its fully parenthesised variant print the same.
-func (c *Ctx) c01Parens(s *Sub, min, full string) {
-	a := c.RunB(min, "")
-	b := c.RunB(full, "")
+func (c *Ctx) c01Parens(s *Sub, min, full string, stdin ...string) {
+	in := ""
+	if len(stdin) > 0 {
+		in = stdin[0]
+	}
+	a := c.RunB(min, in)
+	b := c.RunB(full, in)
 	c.Ev.Case("rand-parens-behaviour", min, strings.Count(min, " ") > 4, "behaviour-"+a.Class())
 	if a.Class() == "abnormal" || b.Class() == "abnormal" {
 		// abnormal termination is C07's finding; the relation is still checked
